@@ -72,6 +72,7 @@ func runC01z(t *testing.T, r *engine.Run) {
 	policies := map[string]*securityclient.AuthorizationPolicy{}
 	nsteps := 6 + tp.Choose(30, "zsteps")
 	away := false
+	meshV := 0
 	for i := 0; i < nsteps && !r.Failed(); i++ {
 		r.Steps++
 		switch a := tp.Choose(10, "zact"); {
@@ -136,8 +137,14 @@ func runC01z(t *testing.T, r *engine.Run) {
 				w.connect(c, inst, false)
 				away = false
 			}
-		default:
+		case a < 9 || !tp.Bool(1, 2, "meshreload"):
 			w.gap(tp, db)
+		default: // mesh configuration reload: a forced global push, merged by the debouncer with whatever comes next
+			meshV = (meshV + 1 + tp.Choose(7, "meshvariant")) % 8
+			inst.setMesh(meshV)
+			r.Logf("mesh configuration reload (variant %d): forced push", meshV)
+			r.Fault("forced_push")
+			synctest.Wait()
 		}
 		w.deliverSome(tp, tp.Choose(5, "ndeliver"))
 		w.reapStream(c)
@@ -177,7 +184,7 @@ func runC01z(t *testing.T, r *engine.Run) {
 			m.SetResourceVersion("")
 		}
 	}
-	cold := newWisInstance(t, "cold", wisOpts{debounceAfter: db.after, debounceMax: db.max, kubeObjects: final})
+	cold := newWisInstance(t, "cold", wisOpts{debounceAfter: db.after, debounceMax: db.max, kubeObjects: final, meshVariant: meshV})
 	cw := newWis(t, r, cold)
 	cc := ztunnelClient("zt")
 	cw.addClient(cc)
